@@ -26,7 +26,10 @@ type Expr struct {
 	Tok    token.Token // binop/unop
 	ID     int         // alloc / fresh ordinal
 	Pos    token.Pos
-	str    string
+	// Parts: for a struct value loaded as a whole (OpInit) from a cell whose
+	// fields were stored one by one, the field values at the time of the load.
+	Parts map[string]*Expr
+	str   string
 }
 
 const (
